@@ -9,8 +9,8 @@ def allSetups2 : List Setup :=
   [0, 1].flatMap fun leader => bools2.flatMap fun outs => bools2.map fun consts => ⟨2, leader, outs, consts⟩
 
 def checkSetup (su : Setup) (fuel : Nat) : Bool :=
-  let r := report Cfg.pinned su fuel
-  r.2.2 == (0, 0) && decide (1 ≤ r.2.1) && (report Cfg.pinned su (fuel + 1)).1 == r.1
+  let r := report Cfg.current su fuel
+  r.2.2 == (0, 0) && decide (1 ≤ r.2.1) && (report Cfg.current su (fuel + 1)).1 == r.1
 
 theorem C13_n2_all_setups : allSetups2.all (fun su => checkSetup su 60) = true := by decide +kernel
 
